@@ -20,3 +20,14 @@ claim('C06',
       'numpy int64/uint64 = two\'s-complement bit-vectors with numpy.result_type promotion; numpy.recarray replaced by a record stand-in '
       'with numpy\'s casting-on-assignment rule; arrays longer than 3 and Python ints beyond 64 bits are outside the claim.',
       'DESIGN.md 4/C06')
+claim('C20',
+      'window_score and template_input (with template_metadata inside it) run on stubbed collaborators that share one call counter; the '
+      'index of the failing call, the initial presence of PHOTO_CALIB / PHOTO_RESOLVE / RUN2D / RUN1D and the branch-selecting file '
+      'contents (object type, method, missing or malformed keywords, dump file present, rescore, flux) are symbolic, so the explorer '
+      'enumerates every crash point on every control-flow variant (about 6 400 feasible paths quick, 12 700 thorough) and asserts at '
+      'every exit that the environment stub equals its entry snapshot and no other variable was touched. Injecting a fault at one '
+      'hand-picked call is what a unit test does; all k on all variants needs enumeration.',
+      'The solver decides path feasibility (fault index, presence bits, content selectors are solver variables); collaborators are '
+      'stubs returning a benign absorbing value or raising one of 2 (quick) / 4 (thorough) exception kinds; os.environ is a mapping stub '
+      '(counterexamples are replayed against the real os.environ of a fresh process); collaborators are assumed not to modify the '
+      'environment themselves.', 'DESIGN.md 4/C20')
